@@ -73,6 +73,7 @@ type rRequest struct {
 	Fail    bool              `json:"fail"`
 	SameErr bool              `json:"sameErr"`
 	SetStatus int             `json:"setStatus"`
+	StopAt string `json:"stopAt"` // the user middleware that answers "do not continue" ("" = none)
 	// bookkeeping for the trace (not used by the driver)
 	Handler *hHandler `json:"handler,omitempty"`
 	Toks    []string  `json:"toks,omitempty"`
@@ -151,12 +152,22 @@ var (
 	fail   bool
 	same   bool
 	status int
+	stopAt string
 )
 
-func Reset(s []bool, f bool, sameErr bool, customStatus int) {
+func Reset(s []bool, f bool, sameErr bool, customStatus int, stop string) {
 	mu.Lock()
 	defer mu.Unlock()
-	events, script, calls, fail, same, status = nil, s, 0, f, sameErr, customStatus
+	events, script, calls, fail, same, status, stopAt = nil, s, 0, f, sameErr, customStatus, stop
+}
+
+// MW records that the user-registered middleware called name (e.g. "before#1", "onError#2") ran and answers whether the operation
+// continues: false exactly for the middleware the request's script stops at.
+func MW(name string) bool {
+	mu.Lock()
+	defer mu.Unlock()
+	events = append(events, Event{Kind: "MW", Method: name})
+	return name != stopAt
 }
 
 // CustomStatus is the status the controller is to set through SetStatus before returning (0 = none).
@@ -499,6 +510,11 @@ func enumerateRequests(id string, hs []hHandler, tokens map[string][]vToken, ful
 		}
 		r.Case, r.Rid, r.Handler, r.Toks, r.Script, r.Fail, r.Kind = id, len(reqs), h, append([]string{}, toks...), script, fail, kind
 		r.SameErr = kind == "auth-same-error"
+		if strings.HasPrefix(kind, "mwstop:") {
+			parts := strings.Split(kind, ":")
+			r.StopAt = parts[1]
+			r.Fail = len(parts) > 2 && parts[2] == "fail"
+		}
 		switch kind {
 		case "status201":
 			r.SetStatus = 201
@@ -583,6 +599,24 @@ func enumerateRequests(id string, hs []hHandler, tokens map[string][]vToken, ful
 			}
 		}
 		add(h, base, nil, true, "fail")
+		// user middlewares that stop the operation, at every stage of the handler
+		for _, st := range []string{"before#1", "before#2", "after#1", "after#2"} {
+			add(h, base, nil, false, "mwstop:"+st)
+		}
+		add(h, base, nil, true, "mwstop:onError#1:fail")
+		add(h, base, nil, true, "mwstop:onError#2:fail")
+		if respCheckOf(h) == "invalid" {
+			add(h, base, nil, false, "mwstop:onOutput#1")
+		}
+		for k, p := range h.Params {
+			if p.In != "ctx" && p.In != "path" && p.Required {
+				toks := append([]string{}, base...)
+				toks[k] = "ABSENT"
+				add(h, toks, nil, false, "mwstop:onInput#1")
+				add(h, toks, nil, false, "mwstop:onInput#2")
+				break
+			}
+		}
 		add(h, base, nil, false, "status201")
 		add(h, base, nil, true, "status202+fail")
 		add(h, base, nil, true, "status503+fail")
@@ -642,7 +676,8 @@ func templateMatches(tpl, path string) bool {
 
 func driverSource(ids []string) string {
 	var sb strings.Builder
-	sb.WriteString("package main\n\nimport (\n\t\"bufio\"\n\t\"encoding/json\"\n\t\"fmt\"\n\t\"io\"\n\t\"net/http\"\n\t\"net/http/httptest\"\n\t\"os\"\n\t\"strings\"\n\n")
+	sb.WriteString("package main\n\nimport (\n\t\"bufio\"\n\t\"context\"\n\t\"encoding/json\"\n\t\"fmt\"\n\t\"io\"\n\t\"net/http\"\n\t\"net/http/httptest\"\n\t\"os\"\n\t\"strings\"\n\n")
+	sb.WriteString("\t\"github.com/gopher-fleece/runtime\"\n")
 	sb.WriteString("\t\"" + caseModule + "/vrec\"\n\t\"github.com/gin-gonic/gin\"\n\t\"github.com/go-chi/chi/v5\"\n\t\"github.com/gofiber/fiber/v2\"\n\tfiberrecover \"github.com/gofiber/fiber/v2/middleware/recover\"\n\t\"github.com/gorilla/mux\"\n\t\"github.com/labstack/echo/v4\"\n")
 	for _, id := range ids {
 		for _, e := range engines {
@@ -662,6 +697,7 @@ func driverSource(ids []string) string {
 	Fail    bool              ` + "`json:\"fail\"`" + `
 	SameErr bool              ` + "`json:\"sameErr\"`" + `
 	SetStatus int             ` + "`json:\"setStatus\"`" + `
+	StopAt  string            ` + "`json:\"stopAt\"`" + `
 }
 
 type result struct {
@@ -674,6 +710,82 @@ type result struct {
 	Panic  string       ` + "`json:\"panic,omitempty\"`" + `
 }
 
+func stopGin(c *gin.Context)        { c.String(418, "stopped by middleware") }
+func mwGin(name string) func(context.Context, *gin.Context) (context.Context, bool) {
+	return func(ctx context.Context, c *gin.Context) (context.Context, bool) {
+		if vrec.MW(name) {
+			return ctx, true
+		}
+		stopGin(c)
+		return ctx, false
+	}
+}
+func emwGin(name string) func(context.Context, *gin.Context, error) (context.Context, bool) {
+	return func(ctx context.Context, c *gin.Context, err error) (context.Context, bool) {
+		if vrec.MW(name) {
+			return ctx, true
+		}
+		stopGin(c)
+		return ctx, false
+	}
+}
+func mwEcho(name string) func(context.Context, echo.Context) (context.Context, bool) {
+	return func(ctx context.Context, c echo.Context) (context.Context, bool) {
+		if vrec.MW(name) {
+			return ctx, true
+		}
+		c.String(418, "stopped by middleware")
+		return ctx, false
+	}
+}
+func emwEcho(name string) func(context.Context, echo.Context, error) (context.Context, bool) {
+	return func(ctx context.Context, c echo.Context, err error) (context.Context, bool) {
+		if vrec.MW(name) {
+			return ctx, true
+		}
+		c.String(418, "stopped by middleware")
+		return ctx, false
+	}
+}
+func mwHttp(name string) func(context.Context, http.ResponseWriter, *http.Request) (context.Context, bool) {
+	return func(ctx context.Context, w http.ResponseWriter, r *http.Request) (context.Context, bool) {
+		if vrec.MW(name) {
+			return ctx, true
+		}
+		w.WriteHeader(418)
+		w.Write([]byte("stopped by middleware"))
+		return ctx, false
+	}
+}
+func emwHttp(name string) func(context.Context, http.ResponseWriter, *http.Request, error) (context.Context, bool) {
+	return func(ctx context.Context, w http.ResponseWriter, r *http.Request, err error) (context.Context, bool) {
+		if vrec.MW(name) {
+			return ctx, true
+		}
+		w.WriteHeader(418)
+		w.Write([]byte("stopped by middleware"))
+		return ctx, false
+	}
+}
+func mwFiber(name string) func(context.Context, *fiber.Ctx) (context.Context, bool) {
+	return func(ctx context.Context, c *fiber.Ctx) (context.Context, bool) {
+		if vrec.MW(name) {
+			return ctx, true
+		}
+		c.Status(418).SendString("stopped by middleware")
+		return ctx, false
+	}
+}
+func emwFiber(name string) func(context.Context, *fiber.Ctx, error) (context.Context, bool) {
+	return func(ctx context.Context, c *fiber.Ctx, err error) (context.Context, bool) {
+		if vrec.MW(name) {
+			return ctx, true
+		}
+		c.Status(418).SendString("stopped by middleware")
+		return ctx, false
+	}
+}
+
 type served struct {
 	h   http.Handler
 	app *fiber.App
@@ -683,11 +795,11 @@ func build(id, engine string) served {
 	switch id + "/" + engine {
 `)
 	for _, id := range ids {
-		fmt.Fprintf(&sb, "\tcase \"%s/gin\":\n\t\te := gin.New()\n\t\tr_%s_gin.RegisterRoutes(e)\n\t\treturn served{h: e}\n", id, id)
-		fmt.Fprintf(&sb, "\tcase \"%s/echo\":\n\t\te := echo.New()\n\t\tr_%s_echo.RegisterRoutes(e)\n\t\treturn served{h: e}\n", id, id)
-		fmt.Fprintf(&sb, "\tcase \"%s/mux\":\n\t\te := mux.NewRouter()\n\t\tr_%s_mux.RegisterRoutes(e)\n\t\treturn served{h: e}\n", id, id)
-		fmt.Fprintf(&sb, "\tcase \"%s/chi\":\n\t\te := chi.NewRouter()\n\t\tr_%s_chi.RegisterRoutes(e)\n\t\treturn served{h: e}\n", id, id)
-		fmt.Fprintf(&sb, "\tcase \"%s/fiber\":\n\t\te := fiber.New(fiber.Config{DisableStartupMessage: true})\n\t\te.Use(fiberrecover.New())\n\t\tr_%s_fiber.RegisterRoutes(e)\n\t\treturn served{app: e}\n", id, id)
+		fmt.Fprintf(&sb, "\tcase \"%[1]s/gin\":\n\t\te := gin.New()\n\t\tr_%[2]s_gin.RegisterRoutes(e)\n\t\tr_%[2]s_gin.RegisterMiddleware(runtime.BeforeOperation, mwGin(\"before#1\"))\n\t\tr_%[2]s_gin.RegisterMiddleware(runtime.BeforeOperation, mwGin(\"before#2\"))\n\t\tr_%[2]s_gin.RegisterMiddleware(runtime.AfterOperationSuccess, mwGin(\"after#1\"))\n\t\tr_%[2]s_gin.RegisterMiddleware(runtime.AfterOperationSuccess, mwGin(\"after#2\"))\n\t\tr_%[2]s_gin.RegisterErrorMiddleware(runtime.OnOperationError, emwGin(\"onError#1\"))\n\t\tr_%[2]s_gin.RegisterErrorMiddleware(runtime.OnOperationError, emwGin(\"onError#2\"))\n\t\tr_%[2]s_gin.RegisterErrorMiddleware(runtime.OnInputValidationError, emwGin(\"onInput#1\"))\n\t\tr_%[2]s_gin.RegisterErrorMiddleware(runtime.OnInputValidationError, emwGin(\"onInput#2\"))\n\t\tr_%[2]s_gin.RegisterErrorMiddleware(runtime.OnOutputValidationError, emwGin(\"onOutput#1\"))\n\t\tr_%[2]s_gin.RegisterErrorMiddleware(runtime.OnOutputValidationError, emwGin(\"onOutput#2\"))\n\t\treturn served{h: e}\n", id, id)
+		fmt.Fprintf(&sb, "\tcase \"%[1]s/echo\":\n\t\te := echo.New()\n\t\tr_%[2]s_echo.RegisterRoutes(e)\n\t\tr_%[2]s_echo.RegisterMiddleware(runtime.BeforeOperation, mwEcho(\"before#1\"))\n\t\tr_%[2]s_echo.RegisterMiddleware(runtime.BeforeOperation, mwEcho(\"before#2\"))\n\t\tr_%[2]s_echo.RegisterMiddleware(runtime.AfterOperationSuccess, mwEcho(\"after#1\"))\n\t\tr_%[2]s_echo.RegisterMiddleware(runtime.AfterOperationSuccess, mwEcho(\"after#2\"))\n\t\tr_%[2]s_echo.RegisterErrorMiddleware(runtime.OnOperationError, emwEcho(\"onError#1\"))\n\t\tr_%[2]s_echo.RegisterErrorMiddleware(runtime.OnOperationError, emwEcho(\"onError#2\"))\n\t\tr_%[2]s_echo.RegisterErrorMiddleware(runtime.OnInputValidationError, emwEcho(\"onInput#1\"))\n\t\tr_%[2]s_echo.RegisterErrorMiddleware(runtime.OnInputValidationError, emwEcho(\"onInput#2\"))\n\t\tr_%[2]s_echo.RegisterErrorMiddleware(runtime.OnOutputValidationError, emwEcho(\"onOutput#1\"))\n\t\tr_%[2]s_echo.RegisterErrorMiddleware(runtime.OnOutputValidationError, emwEcho(\"onOutput#2\"))\n\t\treturn served{h: e}\n", id, id)
+		fmt.Fprintf(&sb, "\tcase \"%[1]s/mux\":\n\t\te := mux.NewRouter()\n\t\tr_%[2]s_mux.RegisterRoutes(e)\n\t\tr_%[2]s_mux.RegisterMiddleware(runtime.BeforeOperation, mwHttp(\"before#1\"))\n\t\tr_%[2]s_mux.RegisterMiddleware(runtime.BeforeOperation, mwHttp(\"before#2\"))\n\t\tr_%[2]s_mux.RegisterMiddleware(runtime.AfterOperationSuccess, mwHttp(\"after#1\"))\n\t\tr_%[2]s_mux.RegisterMiddleware(runtime.AfterOperationSuccess, mwHttp(\"after#2\"))\n\t\tr_%[2]s_mux.RegisterErrorMiddleware(runtime.OnOperationError, emwHttp(\"onError#1\"))\n\t\tr_%[2]s_mux.RegisterErrorMiddleware(runtime.OnOperationError, emwHttp(\"onError#2\"))\n\t\tr_%[2]s_mux.RegisterErrorMiddleware(runtime.OnInputValidationError, emwHttp(\"onInput#1\"))\n\t\tr_%[2]s_mux.RegisterErrorMiddleware(runtime.OnInputValidationError, emwHttp(\"onInput#2\"))\n\t\tr_%[2]s_mux.RegisterErrorMiddleware(runtime.OnOutputValidationError, emwHttp(\"onOutput#1\"))\n\t\tr_%[2]s_mux.RegisterErrorMiddleware(runtime.OnOutputValidationError, emwHttp(\"onOutput#2\"))\n\t\treturn served{h: e}\n", id, id)
+		fmt.Fprintf(&sb, "\tcase \"%[1]s/chi\":\n\t\te := chi.NewRouter()\n\t\tr_%[2]s_chi.RegisterRoutes(e)\n\t\tr_%[2]s_chi.RegisterMiddleware(runtime.BeforeOperation, mwHttp(\"before#1\"))\n\t\tr_%[2]s_chi.RegisterMiddleware(runtime.BeforeOperation, mwHttp(\"before#2\"))\n\t\tr_%[2]s_chi.RegisterMiddleware(runtime.AfterOperationSuccess, mwHttp(\"after#1\"))\n\t\tr_%[2]s_chi.RegisterMiddleware(runtime.AfterOperationSuccess, mwHttp(\"after#2\"))\n\t\tr_%[2]s_chi.RegisterErrorMiddleware(runtime.OnOperationError, emwHttp(\"onError#1\"))\n\t\tr_%[2]s_chi.RegisterErrorMiddleware(runtime.OnOperationError, emwHttp(\"onError#2\"))\n\t\tr_%[2]s_chi.RegisterErrorMiddleware(runtime.OnInputValidationError, emwHttp(\"onInput#1\"))\n\t\tr_%[2]s_chi.RegisterErrorMiddleware(runtime.OnInputValidationError, emwHttp(\"onInput#2\"))\n\t\tr_%[2]s_chi.RegisterErrorMiddleware(runtime.OnOutputValidationError, emwHttp(\"onOutput#1\"))\n\t\tr_%[2]s_chi.RegisterErrorMiddleware(runtime.OnOutputValidationError, emwHttp(\"onOutput#2\"))\n\t\treturn served{h: e}\n", id, id)
+		fmt.Fprintf(&sb, "\tcase \"%[1]s/fiber\":\n\t\te := fiber.New(fiber.Config{DisableStartupMessage: true})\n\t\te.Use(fiberrecover.New())\n\t\tr_%[2]s_fiber.RegisterRoutes(e)\n\t\tr_%[2]s_fiber.RegisterMiddleware(runtime.BeforeOperation, mwFiber(\"before#1\"))\n\t\tr_%[2]s_fiber.RegisterMiddleware(runtime.BeforeOperation, mwFiber(\"before#2\"))\n\t\tr_%[2]s_fiber.RegisterMiddleware(runtime.AfterOperationSuccess, mwFiber(\"after#1\"))\n\t\tr_%[2]s_fiber.RegisterMiddleware(runtime.AfterOperationSuccess, mwFiber(\"after#2\"))\n\t\tr_%[2]s_fiber.RegisterErrorMiddleware(runtime.OnOperationError, emwFiber(\"onError#1\"))\n\t\tr_%[2]s_fiber.RegisterErrorMiddleware(runtime.OnOperationError, emwFiber(\"onError#2\"))\n\t\tr_%[2]s_fiber.RegisterErrorMiddleware(runtime.OnInputValidationError, emwFiber(\"onInput#1\"))\n\t\tr_%[2]s_fiber.RegisterErrorMiddleware(runtime.OnInputValidationError, emwFiber(\"onInput#2\"))\n\t\tr_%[2]s_fiber.RegisterErrorMiddleware(runtime.OnOutputValidationError, emwFiber(\"onOutput#1\"))\n\t\tr_%[2]s_fiber.RegisterErrorMiddleware(runtime.OnOutputValidationError, emwFiber(\"onOutput#2\"))\n\t\treturn served{app: e}\n", id, id)
 	}
 	sb.WriteString(`	}
 	panic("unknown router " + id + "/" + engine)
@@ -699,7 +811,7 @@ func serve(s served, rq request) (res result) {
 			res.Panic = fmt.Sprint(p)
 		}
 	}()
-	vrec.Reset(rq.Script, rq.Fail, rq.SameErr, rq.SetStatus)
+	vrec.Reset(rq.Script, rq.Fail, rq.SameErr, rq.SetStatus, rq.StopAt)
 	var body io.Reader
 	if rq.Body != "" {
 		body = strings.NewReader(rq.Body)
@@ -1005,8 +1117,11 @@ func routerTrace(args []string) error {
 				invoked := false
 				target := ""
 				argsGot := []string{}
+				mw := []string{}
 				for _, ev := range res.Events {
 					switch ev.Kind {
+					case "MW":
+						mw = append(mw, ev.Method)
 					case "Auth":
 						sc := ev.Scopes
 						if sc == nil {
@@ -1045,9 +1160,9 @@ func routerTrace(args []string) error {
 				for _, a := range argsGot {
 					canonArgs = append(canonArgs, strings.ReplaceAll(a, unicodeSample, "<U1>"))
 				}
-				ev := map[string]any{"ev": "Run", "probe": rq.Probe, "target": h.Ctrl + "." + h.Method, "toks": toks, "script": script, "fail": rq.Fail, "sameErr": rq.SameErr, "setStatus": rq.SetStatus,
+				ev := map[string]any{"ev": "Run", "probe": rq.Probe, "target": h.Ctrl + "." + h.Method, "toks": toks, "script": script, "fail": rq.Fail, "sameErr": rq.SameErr, "setStatus": rq.SetStatus, "stopAt": rq.StopAt,
 					"handler": map[string]any{"alts": alts, "params": params, "returnsValue": h.ReturnsValue, "respCheck": respCheckOf(h)},
-					"obs": map[string]any{"auth": auth, "invoked": invoked, "target": target, "args": canonArgs, "status": res.Status, "panicked": panicked}}
+					"obs": map[string]any{"auth": auth, "invoked": invoked, "target": target, "args": canonArgs, "status": res.Status, "panicked": panicked, "mw": mw}}
 				fmt.Fprintln(f, mustJSON(ev))
 				fmt.Fprintf(fi, "%s %d %s\n", rec.ID, rq.Rid, res.Engine)
 				body := res.Body
@@ -1057,7 +1172,7 @@ func routerTrace(args []string) error {
 					if json.Unmarshal([]byte(body), &v) == nil {
 						body = mustJSON(v)
 					}
-					outcomes = append(outcomes, fmt.Sprintf("%v|%s|%s|%d|%s", invoked, target, strings.Join(canonArgs, ","), res.Status, body))
+					outcomes = append(outcomes, fmt.Sprintf("%v|%s|%s|%d|%s|%s", invoked, target, strings.Join(canonArgs, ","), res.Status, body, strings.Join(mw, ",")))
 				}
 			}
 			if len(outcomes) > 0 {
